@@ -1,7 +1,7 @@
 (* C19 -- dsDNA completion adds the antiparallel Watson-Crick complement.
    Statements only; every proof is `exact <lemma>`; Print Assumptions under each. *)
 From Coq Require Import ZArith String List Bool.
-From PV Require Import ListX Dna Gen_dna C19_dna.
+From PV Require Import ListX Dna Gen_dna C19_dna C19_linear.
 Import ListNotations.
 Open Scope Z_scope.
 
@@ -62,6 +62,16 @@ Theorem C19_original_strand_unchanged : forall g g' ln,
   (forall w, w <= n_key ln -> adj_of (g_adj g') w = adj_of (g_adj g) w).
 Proof. exact (complement_frame BASE_LIBRARY). Qed.
 Print Assumptions C19_original_strand_unchanged.
+
+(* the algorithm itself (edge iterator + loop body of complement_dsDNA) on the graph the sequence
+   readers build for a linear strand of ANY length: it terminates within its fuel, the residues
+   of the completed molecule are the strand followed by its complement read backwards, numbered
+   1 .. 2n *)
+Theorem C19_algorithm_on_linear_strands : forall s comps, s <> [] -> comp_strand BASE_LIBRARY s = Some comps ->
+  exists g', complement BASE_LIBRARY (linear s) = Ok g' /\ map n_name (g_nodes g') = (s ++ comps)%list /\
+             map n_resid (g_nodes g') = map (fun k => Z.of_nat k + 1) (seq 0 (2 * List.length s)).
+Proof. exact (complement_linear BASE_LIBRARY). Qed.
+Print Assumptions C19_algorithm_on_linear_strands.
 
 Example C19_nonvacuous :
   comp_strand BASE_LIBRARY ["DA5"; "DG"; "DC3"]%string = Some ["DG5"; "DC"; "DT3"]%string.
